@@ -111,6 +111,27 @@ type job struct {
 	Ops      int      `json:"ops"`
 	Seed     int64    `json:"seed"`
 	Block    bool     `json:"block"`
+	Shapes   []string `json:"shapes"` // schedule shapes (LockTable!Shapes); round r uses Shapes[r mod len]
+}
+
+// pace idles for a moment without any synchronisation (reading the clock is none), so that a paced
+// thread falls behind the other one between two of its calls.
+func pace() {
+	for t := time.Now(); time.Since(t) < 15*time.Microsecond; {
+	}
+}
+
+// pacedThreads says which of the two threads of a pair idle between their calls in a schedule shape.
+func pacedThreads(shape string) [2]bool {
+	switch shape {
+	case "first-paced":
+		return [2]bool{true, false}
+	case "second-paced":
+		return [2]bool{false, true}
+	case "both-paced":
+		return [2]bool{true, true}
+	}
+	return [2]bool{}
 }
 
 func marker(kind string, n int) { fmt.Fprintf(os.Stderr, "@@C13 %s %d\n", kind, n) }
@@ -141,38 +162,48 @@ func settle(base int) {
 }
 
 // runRound starts one goroutine per plan entry from a start barrier; plan[t](k) performs the
-// k-th call of thread t.  The first thread that finishes cancels the round's context; so does
-// the watchdog when no call completed for a while (all threads blocked).  Returns the number of
-// calls completed and whether the watchdog had to cancel.
-func runRound(w *world, n []int, plan func(t, k int)) (int64, bool) {
+// k-th call of thread t; a thread with paced[t] idles between its calls; with reverse the
+// goroutines are created in the opposite order.  Once a thread has finished, the others keep
+// running as long as they complete calls; when no call completed for a while (all remaining
+// threads blocked: ~5 ms, or ~0.6 ms after a thread finished) the round's context is cancelled.
+// Returns the number of calls completed and whether the watchdog cancelled before any thread finished.
+func runRound(w *world, n []int, paced []bool, reverse bool, plan func(t, k int)) (int64, bool) {
 	var progress atomic.Int64
 	var start sync.WaitGroup
 	start.Add(1)
 	done := make(chan int, len(n))
-	for t := range n {
+	for i := range n {
+		t := i
+		if reverse {
+			t = len(n) - 1 - i
+		}
 		go func(t int) {
 			start.Wait()
 			for k := 0; k < n[t]; k++ {
 				safe(func() { plan(t, k) })
 				progress.Add(1)
+				if paced != nil && paced[t] {
+					pace()
+				}
 			}
 			done <- t
 		}(t)
 	}
 	start.Done()
-	remaining, last, idle, stalled := len(n), int64(-1), 0, false
+	remaining, last, idle, stalled, limit, cancelled := len(n), int64(-1), 0, false, 25, false
 	tick := time.NewTicker(200 * time.Microsecond)
 	defer tick.Stop()
 	for remaining > 0 {
 		select {
 		case <-done:
 			remaining--
-			w.cancel()
+			limit = 3
 		case <-tick.C:
 			if p := progress.Load(); p != last {
 				last, idle = p, 0
-			} else if idle++; idle == 25 {
-				stalled = true
+			} else if idle++; idle >= limit && !cancelled {
+				cancelled = true
+				stalled = remaining == len(n)
 				w.cancel()
 			} else if idle > 100000 { // 20 s without any progress after cancellation: give up (exit 3 = infrastructure)
 				fmt.Fprintf(os.Stderr, "@@C13 STUCK comp=%s class=%s\n", w.comp, w.class)
@@ -219,6 +250,7 @@ func runPair(j job) map[string]any {
 	base := runtime.NumGoroutine()
 	var calls int64
 	stalls := 0
+	shapes := map[string]bool{}
 	for r := 0; r < j.Rounds; r++ {
 		w := newWorld(j.Comp, j.Class)
 		// when both methods may block, the second thread's calls get a cancelled context (two
@@ -228,7 +260,14 @@ func runPair(j job) map[string]any {
 		if blk[0] && blk[1] {
 			deadFor = 1 - r%2
 		}
-		n, st := runRound(w, []int{j.Iters, j.Iters}, func(t, k int) {
+		shape := "free"
+		if len(j.Shapes) > 0 {
+			shape = j.Shapes[r%len(j.Shapes)]
+			shapes[shape] = true
+		}
+		pc := pacedThreads(shape)
+		// the order in which the two goroutines are created alternates every len(Shapes) rounds
+		n, st := runRound(w, []int{j.Iters, j.Iters}, pc[:], len(j.Shapes) > 0 && (r/len(j.Shapes))%2 == 1, func(t, k int) {
 			c := &call{ctx: w.ctx, tid: t, i: k}
 			if t == deadFor {
 				c.ctx = w.dead
@@ -242,7 +281,7 @@ func runPair(j job) map[string]any {
 		w.finish()
 		settle(base)
 	}
-	return map[string]any{"end": j.N, "calls": calls, "stalls": stalls}
+	return map[string]any{"end": j.N, "calls": calls, "stalls": stalls, "shapes": len(shapes)}
 }
 
 func runMulti(j job) map[string]any {
@@ -270,7 +309,15 @@ func runMulti(j job) map[string]any {
 			}
 			ns[t] = j.Ops
 		}
-		n, st := runRound(w, ns, func(t, k int) {
+		// odd rounds: every second thread idles between its calls
+		var pc []bool
+		if r%2 == 1 {
+			pc = make([]bool, j.Threads)
+			for t := range pc {
+				pc[t] = t%2 == 1
+			}
+		}
+		n, st := runRound(w, ns, pc, r%4 >= 2, func(t, k int) {
 			c := &call{ctx: w.ctx, tid: t, i: k}
 			if dead[t][k] {
 				c.ctx = w.dead
